@@ -72,7 +72,7 @@ func offsets(r *hx.Rng, m *big.Int) *big.Int {
 
 func genRaw(r *hx.Rng, bits int, m *big.Int) *big.Int {
 	var v *big.Int
-	switch r.Intn(14) {
+	switch r.Intn(20) {
 	case 0: // around 0
 		v = bi(int64(r.Range(-3, 3)))
 	case 1: // around ±mult/2
@@ -111,15 +111,64 @@ func genRaw(r *hx.Rng, bits int, m *big.Int) *big.Int {
 		v = randSign(r, randBits(r, r.Range(1, (bits-1)/2)))
 	case 11, 12: // any bit length
 		v = randSign(r, randBits(r, r.Range(1, bits-1)))
-	default: // full-width random
+	case 13: // full-width random
 		v = wrapTo(randBits(r, bits), bits)
+	case 14: // powers of two and their neighbours (incl. the 2^31/2^32/2^53/2^63/2^64 word and mantissa boundaries)
+		k := r.Range(0, bits-1)
+		if r.Bool() {
+			k = hx.Pick(r, []int{7, 8, 15, 16, 31, 32, 52, 53, 62, 63, 64, 65, 126, 127})
+			if k > bits-1 {
+				k = bits - 1
+			}
+		}
+		v = randSign(r, new(big.Int).Add(pow2(k), bi(int64(r.Range(-2, 2)))))
+	case 15: // powers of ten and their neighbours
+		maxExp := 18
+		if bits == 128 {
+			maxExp = 38
+		}
+		v = new(big.Int).Exp(bi(10), bi(int64(r.Range(0, maxExp))), nil)
+		v = randSign(r, v.Add(v, bi(int64(r.Range(-1, 1)))))
+	case 16: // Max/2 ± 1, Max/mult², 3·Max/4 …
+		switch r.Intn(3) {
+		case 0:
+			v = new(big.Int).Rsh(maxOf(bits), 1)
+		case 1:
+			v = new(big.Int).Quo(maxOf(bits), mulB(m, m))
+		default:
+			v = new(big.Int).Sub(maxOf(bits), new(big.Int).Rsh(maxOf(bits), 2))
+		}
+		v = randSign(r, v.Add(v, bi(int64(r.Range(-2, 2)))))
+	case 17: // a·mult lands next to a word boundary 2^k (Div, Inc, From paths; f128 fast paths across 2^63/2^64)
+		k := hx.Pick(r, []int{31, 32, 53, 62, 63, 64, 65, 96, 126, 127, 128})
+		if k > bits {
+			k = hx.Pick(r, []int{31, 32, 53, 62, 63, 64})
+		}
+		v = new(big.Int).Quo(new(big.Int).Add(pow2(k), bi(int64(r.Range(-2, 2)))), m)
+		v = randSign(r, v.Add(v, bi(int64(r.Range(-1, 1)))))
+	case 18: // within one whole unit of the ends of the range (Ceil / Round / Inc / Dec at the top and bottom)
+		top := mulB(tq(maxOf(bits), m), m) // the largest representable whole number
+		d := randBits(r, r.Range(1, m.BitLen()))
+		d.Mod(d, new(big.Int).Add(m, bi(2)))
+		switch r.Intn(4) {
+		case 0:
+			v = new(big.Int).Sub(top, d)
+		case 1:
+			v = new(big.Int).Add(top, d)
+		case 2:
+			v = new(big.Int).Add(new(big.Int).Neg(top), d)
+		default:
+			v = new(big.Int).Sub(new(big.Int).Neg(top), d)
+		}
+	default: // strictly inside (-1, 1): integer part zero, every fraction (Round/Ceil/Trunc of -0.x)
+		v = randSign(r, new(big.Int).Mod(randBits(r, m.BitLen()+8), m))
 	}
 	return wrapTo(v, bits)
 }
 
 func genSecond(r *hx.Rng, bits int, m, a *big.Int) *big.Int {
 	var v *big.Int
-	switch r.Intn(12) {
+	switch r.Intn(20) {
 	case 0:
 		v = new(big.Int).Set(a)
 	case 1:
@@ -142,6 +191,57 @@ func genSecond(r *hx.Rng, bits int, m, a *big.Int) *big.Int {
 	case 7: // a divisor-like value: a / k
 		k := bi(int64(r.Range(2, 12)))
 		v = new(big.Int).Quo(a, k)
+	case 8, 9: // the product a·b lands next to 2^k: word boundaries of the 64/128-bit products (f128 fast paths)
+		k := hx.Pick(r, []int{31, 32, 53, 62, 63, 63, 64, 64, 65, 96, 126, 127, 128})
+		if k > bits {
+			k = hx.Pick(r, []int{31, 32, 53, 62, 63, 64})
+		}
+		if a.Sign() == 0 {
+			v = genRaw(r, bits, m)
+			break
+		}
+		t := new(big.Int).Add(pow2(k), bi(int64(r.Range(-3, 3))))
+		v = new(big.Int).Quo(t, new(big.Int).Abs(a))
+		v = randSign(r, v.Add(v, bi(int64(r.Range(-1, 1)))))
+	case 10: // opposite-sign partner whose difference / sum leaves the range (compare-by-subtraction, a-b wrap)
+		d := new(big.Int).Add(pow2(bits-1), bi(int64(r.Range(-2, 2))))
+		if a.Sign() >= 0 {
+			v = new(big.Int).Sub(a, d)
+		} else {
+			v = new(big.Int).Add(a, d)
+		}
+	case 11: // the extremes against anything
+		v = hx.Pick(r, []*big.Int{maxOf(bits), minOf(bits), new(big.Int).Add(minOf(bits), bi(1)), bi(-1), bi(1), bi(0)})
+	case 12: // a single-bit divisor (shift fast path of the unsigned division)
+		v = randSign(r, pow2(r.Range(0, bits-2)))
+	case 13: // the divisor equals / brackets the scaled dividend a·mult (quotient 0, ±1, ±2)
+		v = new(big.Int).Add(mulB(a, m), bi(int64(r.Range(-1, 1))))
+		if r.Chance(1, 3) {
+			v.Quo(v, bi(2))
+		}
+		if r.Bool() {
+			v.Neg(v)
+		}
+	case 14: // divisor 14…19 bits shorter than the scaled dividend (threshold between the two division algorithms)
+		n := mulB(a, m).BitLen() - r.Range(13, 20)
+		if n < 1 {
+			n = 1
+		}
+		if n > bits-1 {
+			n = bits - 1
+		}
+		v = randSign(r, new(big.Int).SetBit(randBits(r, n), n-1, 1))
+	case 15: // product 14…19 bits longer than the multiplier (the same threshold inside Mul's division)
+		n := m.BitLen() + r.Range(13, 20) - a.BitLen()
+		if n < 1 {
+			n = 1
+		}
+		if n > bits-1 {
+			n = bits - 1
+		}
+		v = randSign(r, new(big.Int).SetBit(randBits(r, n), n-1, 1))
+	case 16: // denominators of fractions: 0, ±1 raw, ±1.0
+		v = hx.Pick(r, []*big.Int{bi(0), bi(0), bi(1), bi(-1), m, new(big.Int).Neg(m)})
 	default:
 		v = genRaw(r, bits, m)
 	}
@@ -163,6 +263,9 @@ var kinds = []kindInfo{
 	{"int8", 8, true}, {"int16", 16, true}, {"int32", 32, true}, {"int64", 64, true}, {"int", 64, true},
 	{"uint8", 8, false}, {"uint16", 16, false}, {"uint32", 32, false}, {"uint64", 64, false}, {"uint", 64, false},
 	{"uintptr", 64, false},
+	// named types with these underlying kinds
+	{"myint8", 8, true}, {"myint64", 64, true}, {"myuint8", 8, false}, {"myuint", 64, false}, {"myuint64", 64, false},
+	{"myuintptr", 64, false},
 }
 
 func kindOf(name string) kindInfo {
@@ -235,7 +338,7 @@ func allFit(bits int, m *big.Int, op string, kind string, a, b *big.Int) bool {
 		return fitsU(q, k.bits)
 	case "maxsafe": // f128.MaxSafeMultiply is the fixed-point Maximum.Div(Multiplier): the intermediate Max·mult wraps
 		return bits == 64
-	case "fnorm", "fval":
+	case "fnorm", "fval", "fstr", "fnew", "fjson", "fjsonbad":
 		n, d := a, b
 		if d.Sign() == 0 {
 			n, d = bi(0), m
@@ -246,7 +349,7 @@ func allFit(bits int, m *big.Int, op string, kind string, a, b *big.Int) bool {
 			}
 			n, d = new(big.Int).Neg(n), new(big.Int).Neg(d)
 		}
-		if op == "fnorm" {
+		if op == "fnorm" || op == "fstr" || op == "fjson" {
 			return true
 		}
 		_, ok := divFits(bits, m, n, d)
@@ -255,7 +358,7 @@ func allFit(bits int, m *big.Int, op string, kind string, a, b *big.Int) bool {
 	return true // trunc, min, max, comparisons, constants: never overflow
 }
 
-var binOps = []string{"add", "sub", "mul", "mul", "div", "div", "mod", "mod", "min", "max", "eq", "lt", "le", "gt", "ge", "cmp", "fnorm", "fval"}
+var binOps = []string{"add", "sub", "mul", "mul", "mul", "div", "div", "div", "mod", "mod", "min", "max", "eq", "lt", "le", "gt", "ge", "cmp", "cmp", "fnorm", "fval", "fstr"}
 var unOps = []string{"abs", "neg", "trunc", "trunc", "ceil", "ceil", "ceil", "round", "round", "round", "round", "inc", "dec"}
 var constOps = []string{"mult", "places", "maxsafe", "maximum", "minimum"}
 
@@ -267,7 +370,15 @@ func genKindValue(r *hx.Rng, k kindInfo, m *big.Int) *big.Int {
 		lo, hi = bi(0), new(big.Int).Sub(pow2(k.bits), bi(1))
 	}
 	var v *big.Int
-	switch r.Intn(8) {
+	switch r.Intn(11) {
+	case 8: // half of the kind's range ± 1
+		v = new(big.Int).Add(new(big.Int).Rsh(hi, 1), bi(int64(r.Range(-1, 1))))
+		v = randSign(r, v)
+	case 9: // powers of two ± 1 inside the kind
+		v = randSign(r, new(big.Int).Add(pow2(r.Range(0, k.bits)), bi(int64(r.Range(-1, 1)))))
+	case 10: // powers of ten ± 1
+		v = new(big.Int).Exp(bi(10), bi(int64(r.Range(0, 19))), nil)
+		v = randSign(r, v.Add(v, bi(int64(r.Range(-1, 1)))))
 	case 0:
 		v = new(big.Int).Sub(hi, bi(int64(r.Range(0, 2))))
 	case 1:
@@ -305,7 +416,7 @@ func (ar area) Gen(r *hx.Rng, n int, _ string, emit func(string)) {
 		}
 		var op, kind, args string
 		var a, b *big.Int
-		switch sel := r.Intn(20); {
+		switch sel := r.Intn(23); {
 		case sel < 10:
 			op = hx.Pick(r, binOps)
 			a = genRaw(r, bits, m)
@@ -324,11 +435,17 @@ func (ar area) Gen(r *hx.Rng, n int, _ string, emit func(string)) {
 			kind = k.name
 			a = genKindValue(r, k, m)
 			args = kind + " " + a.String()
-		case sel < 19:
+		case sel < 21:
 			op = "as"
 			k := hx.Pick(r, kinds)
 			kind = k.name
-			if r.Bool() { // quotient near the limits of the target kind
+			if r.Chance(1, 4) { // quotient 0, ±1, 2^j ± 1 (low bits of a wider quotient; negative into unsigned)
+				q := randSign(r, new(big.Int).Add(pow2(r.Range(0, bits-2-m.BitLen())), bi(int64(r.Range(-1, 1)))))
+				if r.Chance(1, 3) {
+					q = bi(int64(r.Range(-1, 1)))
+				}
+				a = wrapTo(new(big.Int).Add(mulB(q, m), offsets(r, m)), bits)
+			} else if r.Bool() { // quotient near the limits of the target kind
 				lim := maxOf(k.bits)
 				if !k.signed {
 					lim = new(big.Int).Sub(pow2(k.bits), bi(1))
@@ -342,6 +459,25 @@ func (ar area) Gen(r *hx.Rng, n int, _ string, emit func(string)) {
 				a = genRaw(r, bits, m)
 			}
 			args = kind + " " + a.String()
+		case sel < 22: // Fraction from text: NewFraction / UnmarshalJSON (tokens: raw value, bad, empty, none)
+			op = hx.Pick(r, []string{"fnew", "fnew", "fjson"})
+			a = genRaw(r, bits, m)
+			b = genSecond(r, bits, m, a)
+			ntok, dtok := a.String(), b.String()
+			switch r.Intn(12) {
+			case 0:
+				ntok, a = hx.Pick(r, []string{"bad", "empty"}), bi(0)
+			case 1:
+				dtok, b = hx.Pick(r, []string{"bad", "empty"}), bi(0)
+			case 2, 3:
+				dtok, b = "none", m
+			}
+			if r.Chance(1, 40) {
+				op, args = "fjsonbad", ""
+				a, b = bi(0), m
+			} else {
+				args = strconv.Itoa(r.Intn(2500)) + " " + ntok + " " + dtok
+			}
 		default:
 			op = hx.Pick(r, constOps)
 		}
@@ -353,7 +489,7 @@ func (ar area) Gen(r *hx.Rng, n int, _ string, emit func(string)) {
 		if args != "" {
 			line += " " + args
 		}
-		has64 := op != "neg" && op != "cmp" && op != "maximum" && op != "minimum"
+		has64 := op != "neg" && op != "cmp"
 		switch tsel {
 		case 0:
 			if !has64 {
@@ -367,6 +503,11 @@ func (ar area) Gen(r *hx.Rng, n int, _ string, emit func(string)) {
 		default:
 			// the 64-bit operands are run on both types; for fxwrap the 128-bit side usually does not overflow, which
 			// is fine for a model-vs-implementation stream
+			if op == "maxsafe" { // f128.MaxSafeMultiply overflows internally: never part of the in-hypothesis stream
+				emit("f64" + line)
+				emitted++
+				continue
+			}
 			if has64 {
 				emit("f64" + line)
 				emitted++
@@ -375,4 +516,33 @@ func (ar area) Gen(r *hx.Rng, n int, _ string, emit func(string)) {
 			emitted++
 		}
 	}
+}
+
+// genRawMid yields a raw value whose quotient raw/mult sits on or within a few raw units of a rounding midpoint of the
+// float64 (single: float32) grid: N·2^e with N an odd (p+1)-bit integer, at any magnitude the width allows.
+func genRawMid(r *hx.Rng, bits int, mult int64, single bool) *big.Int {
+	p := 53
+	if single {
+		p = 24
+	}
+	n := randBits(r, p+1)
+	n.SetBit(n, p, 1)
+	n.SetBit(n, 0, 1)
+	v := mulB(n, bi(mult))
+	l := r.Range(2, bits-1)
+	if e := l - v.BitLen(); e >= 0 {
+		v.Lsh(v, uint(e))
+	} else {
+		v.Rsh(v, uint(-e))
+	}
+	v.Add(v, bi(int64(r.Range(-2, 2))))
+	return wrapTo(randSign(r, v), bits)
+}
+
+// genRawFloat: the raw operand of an As-to-float line.
+func genRawFloat(r *hx.Rng, bits int, mult int64, single bool) *big.Int {
+	if r.Chance(1, 3) {
+		return genRawMid(r, bits, mult, single)
+	}
+	return genRaw(r, bits, bi(mult))
 }
